@@ -89,16 +89,19 @@ typedef struct {
 static void polyseg_build(const vf_poly *P, polyseg *S) {
     S->nseg = S->nv = 0;
     S->mid = 0.5L * (P->bbox_u[2] + P->bbox_u[3]);
+    /* a vertex listed twice in a row gives a zero-length edge: it is a vertex, not a segment */
     for (int i = 0; i < P->n; i++) {
         S->a[S->nseg] = (P2){P->outer_u[i].lng, P->outer_u[i].lat};
         S->b[S->nseg] = (P2){P->outer_u[(i + 1) % P->n].lng, P->outer_u[(i + 1) % P->n].lat};
-        S->v[S->nv++] = S->a[S->nseg++];
+        S->v[S->nv++] = S->a[S->nseg];
+        if (S->a[S->nseg].x != S->b[S->nseg].x || S->a[S->nseg].y != S->b[S->nseg].y) S->nseg++;
     }
     for (int h = 0; h < P->nholes; h++)
         for (int i = 0; i < P->hn[h]; i++) {
             S->a[S->nseg] = (P2){P->hole_u[h][i].lng, P->hole_u[h][i].lat};
             S->b[S->nseg] = (P2){P->hole_u[h][(i + 1) % P->hn[h]].lng, P->hole_u[h][(i + 1) % P->hn[h]].lat};
-            S->v[S->nv++] = S->a[S->nseg++];
+            S->v[S->nv++] = S->a[S->nseg];
+            if (S->a[S->nseg].x != S->b[S->nseg].x || S->a[S->nseg].y != S->b[S->nseg].y) S->nseg++;
         }
 }
 static P2 unroll(LatLng g, ld mid) {
@@ -454,6 +457,7 @@ static void case_poly(uint64_t seed) {
     if (strstr(desc, "axis-aligned")) vf_add("polygons.axis_aligned", 1);
     if (strstr(desc, "snapped")) vf_add("polygons.vertices_snapped_to_centre_coordinates", 1);
     if (strstr(desc, "hugging")) vf_add("polygons.hugging_cell_corners", 1);
+    if (strstr(desc, "listed twice")) vf_add("polygons.with_a_vertex_listed_twice", 1);
     vf_sample("poly %016" PRIx64 " (%s): FULL %" PRId64 " <= CENTER %" PRId64 " <= OVERLAPPING %" PRId64 " <= BBOX %" PRId64 " cells; bounds %" PRId64 "/%" PRId64 "/%" PRId64 "/%" PRId64, seed, desc, out[1].n, out[0].n, out[2].n, out[3].n, sz[1], sz[0], sz[2], sz[3]);
 done:
     for (int m = 0; m < 4; m++) free(out[m].a);
